@@ -327,14 +327,14 @@ pub fn run(run: &mut Run) -> &'static str {
     let op = prop_oneof![
         10 => (0u8..4, 0u8..8, prop_oneof![Just(0u8), Just(1), Just(2), Just(5), any::<u8>()], 0u8..3, prop_oneof![Just(0i16), Just(31990), Just(-31990), any::<i16>()], any::<u16>())
             .prop_map(|(slot, mult, depth, bound, score, mv)| Op::Insert { slot, mult, depth, bound, score, mv }),
-        1 => (any::<u64>(), any::<u8>(), 0u8..3, any::<i16>()).prop_map(|(key, depth, bound, score)| Op::InsertRandom { key, depth, bound, score }),
+        1 => (prop_oneof![4 => any::<u64>(), 1 => Just(0u64), 1 => Just(u64::MAX), 1 => Just(1u64), 1 => Just(1u64 << 63)], any::<u8>(), 0u8..3, any::<i16>()).prop_map(|(key, depth, bound, score)| Op::InsertRandom { key, depth, bound, score }),
         8 => (0u8..4, 0u8..8).prop_map(|(slot, mult)| Op::Probe { slot, mult }),
-        1 => any::<u64>().prop_map(|key| Op::ProbeRandom { key }),
+        1 => prop_oneof![4 => any::<u64>(), 1 => Just(0u64), 1 => Just(u64::MAX), 1 => Just(1u64), 1 => Just(1u64 << 63)].prop_map(|key| Op::ProbeRandom { key }),
         3 => prop_oneof![6 => Just(1u16), 2 => 2u16..6, 1 => Just(255u16), 1 => Just(256u16), 1 => 250u16..300].prop_map(|times| Op::NewSearch { times }),
         1 => Just(Op::Reset),
         1 => proptest::sample::select(szs2).prop_map(|mb| Op::Resize { mb }),
     ];
-    let strat = (proptest::sample::select(szs), proptest::collection::vec(any::<u32>(), 1..4), proptest::collection::vec(op, 1..60))
+    let strat = (proptest::sample::select(szs), proptest::collection::vec(prop_oneof![6 => any::<u32>(), 1 => Just(0u32), 1 => Just(u32::MAX)], 1..4), proptest::collection::vec(op, 1..60))
         .prop_map(|(initial_mb, slots, ops)| Case { initial_mb, slots, ops });
     let cases = run.tier.pick(300_000, 3_000_000);
     run.proptest_part("ops", RULE, strat, cases, run_case);
